@@ -3,7 +3,7 @@
 (* nesting {1 file, 2 files, 3 files chain, 3 files fan, provider loading a *)
 (* string (error propagated / swallowed)} x user-class sets x global        *)
 (* repository on/off x every failure point (step, file, object/reference).  *)
-(* VT_UNIV = "small" | "full" selects the size, VT_DEV the deviation set.    *)
+(* The .cfg selects MCSmall | MCFull and the deviation set (Dev = {...}).    *)
 EXTENDS LoaderUser, IOUtils
 
 O(c, p) == [cls |-> c, parent |-> p]
@@ -34,50 +34,52 @@ Nest(n) ==
                         F("inner", InnerObjs, <<R(3, 2, 2, 0, 0, FALSE)>>, <<>>), FollowFile(3)>>
 
 AllProcs == <<"Model", "Pkg", "DefA", "DefB", "Use">>
-Full == IOEnv.VT_UNIV = "full"
-Nestings == IF Full THEN {"one", "two", "chain", "fan", "inner", "swallow"}
-            ELSE {"one", "two", "fan", "swallow"}
-UserSets == IF Full THEN {<<>>, <<"DefA">>, <<"Pkg", "DefA">>, <<"Model", "Pkg", "DefA">>}
-            ELSE {<<>>, <<"Pkg", "DefA">>, <<"Model", "Pkg", "DefA">>}
+RECURSIVE Flat(_)
+Flat(ss) == IF ss = <<>> THEN <<>> ELSE Head(ss) \o Flat(Tail(ss))
 
+NestSmall == <<"one", "two", "fan", "swallow">>
+NestFull  == <<"one", "two", "chain", "fan", "inner", "swallow">>
+UserSmall == << <<>>, <<"Pkg", "DefA">>, <<"Model", "Pkg", "DefA">> >>
+UserFull  == << <<>>, <<"DefA">>, <<"Pkg", "DefA">>, <<"Model", "Pkg", "DefA">> >>
+RefSteps  == <<"matchproc", "provider", "unknown", "unresolvable">>
+
+FaultsOfFile(files, user, f) ==
+  LET nr == Len(files[f].refs)  no == Len(files[f].objs) IN
+  << [step |-> "parse", f |-> f, k |-> 0], [step |-> "modelproc", f |-> f, k |-> 0] >>
+  \o Flat([st \in 1..4 |-> [k \in 1..nr |-> [step |-> RefSteps[st], f |-> f, k |-> k]]])
+  \o SelectSeq([k \in 1..no |-> [step |-> "init", f |-> f, k |-> k]],
+               LAMBDA ft : \E i \in 1..Len(user) : user[i] = files[f].objs[ft.k].cls)
+  \o [k \in 1..no |-> [step |-> "objproc", f |-> f, k |-> k]]
 Faults(files, user) ==
-  LET live == {f \in 1..Len(files) : files[f].kind # "follow"} IN
-  {[step |-> "none", f |-> 0, k |-> 0]}
-  \cup {[step |-> st, f |-> f, k |-> 0] : st \in {"parse", "modelproc"}, f \in live}
-  \cup UNION {{[step |-> st, f |-> f, k |-> k] : st \in {"matchproc", "provider", "unknown", "unresolvable"},
-                                                 k \in 1..Len(files[f].refs)} : f \in live}
-  \cup UNION {{[step |-> "init", f |-> f, k |-> k] :
-                  k \in {j \in 1..Len(files[f].objs) : files[f].objs[j].cls \in Range(user)}} : f \in live}
-  \cup UNION {{[step |-> "objproc", f |-> f, k |-> k] : k \in 1..Len(files[f].objs)} : f \in live}
-
-Universe ==
-  UNION {UNION {UNION {
-     {[nest |-> n, user |-> u, own |-> IF ow THEN u ELSE <<>>, grepo |-> g, procs |-> AllProcs,
-       files |-> Nest(n), fault |-> ft, follow |-> Len(Nest(n))]
-        : ft \in Faults(Nest(n), u), ow \in (IF u = <<>> \/ ~Full THEN {FALSE} ELSE BOOLEAN)}
-     : g \in BOOLEAN} : u \in UserSets} : n \in Nestings}
+  << [step |-> "none", f |-> 0, k |-> 0] >>
+  \o Flat([f \in 1..Len(files) |-> IF files[f].kind = "follow" THEN <<>> ELSE FaultsOfFile(files, user, f)])
 
 FtId(ft) == ft.step \o "." \o ToString(ft.f) \o "." \o ToString(ft.k)
 UserId(u) == IF u = <<>> THEN "none" ELSE IF Len(u) = 1 THEN "A" ELSE IF Len(u) = 2 THEN "PA" ELSE "MPA"
-WithId(s) == [id |-> s.nest \o "/" \o UserId(s.user) \o (IF s.own # <<>> THEN "+own" ELSE "")
-                      \o (IF s.grepo THEN "/grepo/" ELSE "/-/") \o FtId(s.fault),
-              user |-> s.user, own |-> s.own, grepo |-> s.grepo, procs |-> s.procs,
-              files |-> s.files, fault |-> s.fault, follow |-> s.follow]
+Scen(n, u, ow, g, ft) ==
+  [id |-> n \o "/" \o UserId(u) \o (IF ow /\ u # <<>> THEN "+own" ELSE "") \o (IF g THEN "/grepo/" ELSE "/-/") \o FtId(ft),
+   user |-> u, own |-> IF ow THEN u ELSE <<>>, grepo |-> g, procs |-> AllProcs,
+   files |-> Nest(n), fault |-> ft, follow |-> Len(Nest(n))]
+Bools == <<FALSE, TRUE>>
+UniverseOf(nests, users, owns) ==
+  Flat([a \in 1..Len(nests) |-> Flat([b \in 1..Len(users) |-> Flat([c \in 1..2 |-> Flat([d \in 1..Len(owns) |->
+     IF owns[d] /\ users[b] = <<>> THEN <<>>
+     ELSE LET fs == Faults(Nest(nests[a]), users[b]) IN
+          [e \in 1..Len(fs) |-> Scen(nests[a], users[b], owns[d], Bools[c], fs[e])]])])])])
+MCSmall == UniverseOf(NestSmall, UserSmall, <<FALSE>>)
+MCFull  == UniverseOf(NestFull, UserFull, <<FALSE, TRUE>>)
 
-RECURSIVE ToSeq(_)
-ToSeq(T) == IF T = {} THEN <<>> ELSE LET x == CHOOSE y \in T : TRUE IN <<WithId(x)>> \o ToSeq(T \ {x})
-MCScenarios == ToSeq(Universe)
-
-DevOf(s) == {n \in {"RestoreOnlyMainParser", "RestoreWithoutInstrument", "StoreKeptOnFailure",
-                    "NoCleanupOnModelProcessorFailure"} :
-               \E i \in 1..Len(s) : s[i] = n}
-MCDev == DevOf(JsonDeserialize(IOEnv.VT_DEV))
+AllDev == {"RestoreOnlyMainParser", "RestoreWithoutInstrument", "StoreKeptOnFailure",
+           "NoCleanupOnModelProcessorFailure"}
+NoDev  == {}
 
 \* scenarios given as JSON by the harness (oracle / replay of one case)
 JScenarios == JsonDeserialize(IOEnv.VT_CASES)
 
+SmallSpec == InitWith(Range(MCSmall)) /\ [][Next]_vars
+FullSpec  == InitWith(Range(MCFull)) /\ [][Next]_vars
+JSpec     == InitWith(Range(JScenarios)) /\ [][Next]_vars
+
 EmitScenario == (phase = "run" /\ round = 1 /\ Len(stack) = 1 /\ stack[1].pc = "parse" /\ exc = "")
                   => PrintT("SCEN|" \o ToJson(S))
-View == <<sc, round, phase, stack, exc, instr, held, store, inited, alloc, done, resolved,
-          att, innerRun, procd, linked, repo, retained, outcome, ev>>
 =============================================================================
